@@ -4,7 +4,9 @@
 package fakepeer
 
 import (
+	"fmt"
 	"net/netip"
+	"sync"
 	"sync/atomic"
 
 	"github.com/jech/storrent/bitmap"
@@ -23,6 +25,11 @@ type Peer struct {
 	Writer chan protocol.Message
 	stop   chan struct{}
 	busy   atomic.Int32 // events received from the mailbox and not yet disposed of
+	// Mu serialises the real handlers of this peer (they are single-threaded in the real Run loop)
+	Mu sync.Mutex
+	// Metadata: metadata requests of the torrent are given to the real handler (auto mode)
+	Metadata bool
+	Panic    string // a panic of that handler
 }
 
 // Idle reports whether everything sent to the peer's mailbox has been
@@ -62,7 +69,23 @@ func New(pieces *piece.Pieces, info []byte, my bitmap.Bitmap, addr netip.AddrPor
 					close(q.Ch)
 				case peer.PeerGetStatus, peer.PeerGetStats, peer.PeerGetFast, peer.PeerGetBitmap, peer.PeerGetHave:
 					// answered by the real handler from the real state
+					fp.Mu.Lock()
 					peer.VerifHandleEvent(fp.P, e)
+					fp.Mu.Unlock()
+				case peer.PeerGetMetadata:
+					// the torrent asks this peer for a metadata block: the real handler decides whether and what to write
+					if fp.Metadata {
+						fp.Mu.Lock()
+						func() {
+							defer func() {
+								if p := recover(); p != nil {
+									fp.Panic = fmt.Sprint(p)
+								}
+							}()
+							peer.VerifHandleEvent(fp.P, e)
+						}()
+						fp.Mu.Unlock()
+					}
 				default:
 					if forward {
 						fp.Events <- e
